@@ -105,6 +105,7 @@ def r1_per_step_extraction(ctx):
             ctx.check(ok, RUN + "#merge-first", "first step: accumulator = step result" if ok else f"first step stores {norm(v)[:80]}", where=f, node=s)
         else:
             bodies = [v] + [f.nested[n.id].node for n in ast.walk(v) if isinstance(n, ast.Name) and n.id in f.nested]  # a named local function handed to map_over_datasets
+            bodies += [f.module.functions[n.id].node for n in ast.walk(v) if isinstance(n, ast.Name) and n.id not in f.nested and n.id in f.module.functions]  # ... or a module-level one
             has_merge = any(isinstance(c, ast.Call) and any(k in call_name(c) for k in ("merge", "concat", "combine")) for b in bodies for c in ast.walk(b))
             ok = acc in used and has_merge
             ctx.check(ok, RUN + "#merge-later", "later steps: merge(accumulated, step result)" if ok else f"later steps overwrite the accumulated slices: {norm(s)[:100]}", where=f, node=s)
@@ -166,7 +167,14 @@ def r2_bucket_wiring(ctx):
             try:
                 keys = list(ast.literal_eval(expand(f, lp.iter)))
             except Exception:
-                raise AnalysisError("_extract_datatree_2d: key tuple is not a literal")
+                # a literal table filtered by a constant predicate: folded by sa/minieval.py (nothing is run)
+                from sa.minieval import Interp
+
+                try:
+                    keys = list(Interp().expr(expand(f, lp.iter, depth=6), {}))
+                    assert all(isinstance(k, str) for k in keys)
+                except Exception:
+                    raise AnalysisError("_extract_datatree_2d: key tuple is not a literal")
         else:
             ctx.fail(EXT + "#wiring", f"dataset key `{norm(t.slice)}` is not the bucket name that is read", where=f, node=s)
             continue
